@@ -1,6 +1,7 @@
 package pmc
 
 import (
+	"fmt"
 	"sort"
 	"sync"
 	"sync/atomic"
@@ -299,7 +300,7 @@ func (e *Engine) Alphabet() []int {
 					for tag, p := range e.proofVariants(base.Proof, owned, honest) {
 						v := base
 						v.S, v.Proof = s, p
-						add(mkVC(v, m.Raw.Block), "proof-"+tag)
+						add(mkVC(v, blockFor(tag, m.Raw.Block)), "proof-"+tag)
 					}
 					v := base
 					v.S = s
@@ -343,7 +344,7 @@ func (e *Engine) Alphabet() []int {
 				blk := kit.NewBlock(1, ps.tag)
 				add(mkVC(voteT{T: protocol.LEAN_HELIX_VIEW_CHANGE, I: kit.Instance, H: H, V: primitives.View(v), Proof: base, S: s}, blk), "byz-vote-proof")
 				for tag, p := range e.proofVariants(base, owned, honest) {
-					add(mkVC(voteT{T: protocol.LEAN_HELIX_VIEW_CHANGE, I: kit.Instance, H: H, V: primitives.View(v), Proof: p, S: s}, blk), "byz-vote-proof-"+tag)
+					add(mkVC(voteT{T: protocol.LEAN_HELIX_VIEW_CHANGE, I: kit.Instance, H: H, V: primitives.View(v), Proof: p, S: s}, blockFor(tag, blk)), "byz-vote-proof-"+tag)
 				}
 			}
 		}
@@ -461,6 +462,26 @@ func (e *Engine) proofVariants(p proofT, owned, honest []primitives.MemberId) ma
 	q = cp()
 	q.PPSender = signerT{ID: p.PPSender.ID, Mode: "garbage"}
 	out["bad-preprepare-signature"] = q
+	// if the adversary led the proven view it can re-sign the PREPREPARE part at will while the PREPARE part
+	// stays genuine: each mismatch between the two parts is then the ONLY thing wrong with the proof
+	for _, id := range owned {
+		if string(id) != string(p.PPSender.ID) {
+			continue
+		}
+		me := signerT{ID: id, Mode: "valid"}
+		q = cp()
+		q.PP.Hash, q.PPSender = kit.HashOf(kit.NewBlock(1, "OTHER")), me
+		out["owned-preprepare-other-hash"] = q
+		q = cp()
+		q.PP.V, q.PPSender = q.PP.V+uint64ToView(uint64(len(e.Cfg.C))), me
+		out["owned-preprepare-other-view"] = q
+		q = cp()
+		q.PP.H, q.PPSender = q.PP.H+1, me
+		out["owned-preprepare-other-height"] = q
+		q = cp()
+		q.PP.I, q.PPSender = q.PP.I+1, me
+		out["owned-preprepare-other-instance"] = q
+	}
 	q = cp()
 	q.P.V = q.P.V + 1
 	out["prepare-ref-other-view"] = q
@@ -602,6 +623,45 @@ func (e *Engine) nvVariants(b primitives.MemberId, v uint64, proofs []proofSrc, 
 			}
 		}
 	}
+	// synthetic certificates: votes and prepared proofs that correct members COULD have produced in a deeper
+	// execution (signatures minted as genuine), for this view and for the next view this leader leads. They
+	// exercise the selection rule among several proofs of different views, in both listing orders.
+	nC := uint64(len(cfg.C))
+	for _, tv := range []uint64{v, v + nC} {
+		TV := primitives.View(tv)
+		synth := func(voter primitives.MemberId, pv uint64, tag string) (voteT, *kit.Block) {
+			blk := kit.NewBlock(1, tag)
+			leader := primitives.MemberId(r.Leader(pv))
+			pr := proofT{Present: true,
+				PP:       brefT{protocol.LEAN_HELIX_PREPREPARE, kit.Instance, H, primitives.View(pv), kit.HashOf(blk)},
+				P:        brefT{protocol.LEAN_HELIX_PREPARE, kit.Instance, H, primitives.View(pv), kit.HashOf(blk)},
+				PPSender: signerT{ID: leader, Mode: "valid"}}
+			for _, m := range cfg.C {
+				if string(m.ID) != string(leader) && len(pr.PSenders) < len(cfg.C)-1 {
+					pr.PSenders = append(pr.PSenders, signerT{ID: m.ID, Mode: "valid"})
+				}
+			}
+			return voteT{T: protocol.LEAN_HELIX_VIEW_CHANGE, I: kit.Instance, H: H, V: TV, Proof: pr, S: signerT{ID: voter, Mode: "valid"}}, blk
+		}
+		ownTV := voteT{T: protocol.LEAN_HELIX_VIEW_CHANGE, I: kit.Instance, H: H, V: TV, S: me}
+		if len(honest) >= 2 && tv >= 2 {
+			for pv1 := uint64(0); pv1 < tv && pv1 <= 3; pv1++ {
+				for pv2 := uint64(0); pv2 < tv && pv2 <= 3; pv2++ {
+					if pv1 == pv2 {
+						continue
+					}
+					v1, b1 := synth(honest[0], pv1, "S1")
+					v2, b2 := synth(honest[1], pv2, "S2")
+					votes := []voteT{ownTV, v1, v2}
+					mk(fmt.Sprintf("synth-proofs-%d-%d-proposes-first", pv1, pv2), votes, TV, brefT{protocol.LEAN_HELIX_PREPREPARE, kit.Instance, H, TV, kit.HashOf(b1)}, me, me, b1)
+					mk(fmt.Sprintf("synth-proofs-%d-%d-proposes-second", pv1, pv2), votes, TV, brefT{protocol.LEAN_HELIX_PREPREPARE, kit.Instance, H, TV, kit.HashOf(b2)}, me, me, b2)
+					ppT := ppA
+					ppT.V = TV
+					mk(fmt.Sprintf("synth-proofs-%d-%d-proposes-fresh", pv1, pv2), votes, TV, ppT, me, me, blkA)
+				}
+			}
+		}
+	}
 	// votes the adversary can mint: own + outsider, padded with garbage-signed honest ids
 	for _, mode := range []string{"garbage", "empty"} {
 		mk("forged-votes-"+mode, quorumVotes(cfg.C, r, b, V, honest, mode), V, ppA, me, me, blkA)
@@ -627,7 +687,7 @@ func (e *Engine) nvVariants(b primitives.MemberId, v uint64, proofs []proofSrc, 
 			o.Proof = p
 			votes := append([]voteT{o}, genuine...)
 			pp := brefT{protocol.LEAN_HELIX_PREPREPARE, kit.Instance, H, V, p.PP.Hash}
-			mk("ownproof-"+tag, votes, V, pp, me, me, lock)
+			mk("ownproof-"+tag, votes, V, pp, me, me, blockFor(tag, lock))
 			mk("ownproof-"+tag+"-fresh", votes, V, ppA, me, me, blkA)
 		}
 	}
@@ -745,4 +805,14 @@ func (e *Engine) AlphabetSample() []string {
 		}
 	}
 	return r
+}
+
+func uint64ToView(v uint64) primitives.View { return primitives.View(v) }
+
+// blockFor: the variant that re-signs the PREPREPARE part for another hash attaches the block of that hash.
+func blockFor(tag string, orig interfaces.Block) interfaces.Block {
+	if tag == "owned-preprepare-other-hash" {
+		return kit.NewBlock(1, "OTHER")
+	}
+	return orig
 }
